@@ -136,6 +136,19 @@ fn response<T: IncomingResponse + Debug>(b: &[u8]) -> R {
     Ok(sum(&format!("{r:?}")))
 }
 
+/// Like `response`, for the entry points whose subject is the *error* side of a response: a
+/// non-success status that ruma turns into the endpoint's error type is an accepted input, and the
+/// parsed error (errcode-specific fields, `Retry-After`, UIAA info, ...) is part of the outcome.
+fn response_or_error<T: IncomingResponse + Debug>(b: &[u8]) -> R {
+    use ruma_common::api::error::FromHttpResponseError as E;
+    let resp = build_response(b)?;
+    match T::try_from_http_response(resp) {
+        Ok(r) => Ok(sum(&format!("{r:?}"))),
+        Err(E::Server(e)) => Ok(sum(&format!("server-error {e:?}"))),
+        Err(e) => Err(format!("from-http-{}", variant(&e))),
+    }
+}
+
 pub fn c_send_message(b: &[u8]) -> R {
     request::<ruma_client_api::message::send_message_event::v3::Request>(b, false)
 }
@@ -216,4 +229,163 @@ pub fn r_get_state_response(b: &[u8]) -> R {
 
 pub fn r_get_content_response(b: &[u8]) -> R {
     response::<ruma_client_api::authenticated_media::get_content::v1::Response>(b)
+}
+
+// --- more endpoint conversions (requests a remote client / server / homeserver sent) ---
+pub fn c_get_message_events(b: &[u8]) -> R {
+    request::<ruma_client_api::message::get_message_events::v3::Request>(b, false)
+}
+pub fn c_get_context(b: &[u8]) -> R {
+    request::<ruma_client_api::context::get_context::v3::Request>(b, false)
+}
+pub fn c_login(b: &[u8]) -> R {
+    request::<ruma_client_api::session::login::v3::Request>(b, false)
+}
+pub fn c_register(b: &[u8]) -> R {
+    request::<ruma_client_api::account::register::v3::Request>(b, false)
+}
+pub fn c_create_room(b: &[u8]) -> R {
+    request::<ruma_client_api::room::create_room::v3::Request>(b, false)
+}
+pub fn c_upload_keys(b: &[u8]) -> R {
+    request::<ruma_client_api::keys::upload_keys::v3::Request>(b, false)
+}
+pub fn c_send_to_device(b: &[u8]) -> R {
+    request::<ruma_client_api::to_device::send_event_to_device::v3::Request>(b, false)
+}
+pub fn c_set_read_marker(b: &[u8]) -> R {
+    request::<ruma_client_api::read_marker::set_read_marker::v3::Request>(b, false)
+}
+pub fn c_search_users(b: &[u8]) -> R {
+    request::<ruma_client_api::user_directory::search_users::v3::Request>(b, false)
+}
+pub fn c_get_keys(b: &[u8]) -> R {
+    request::<ruma_client_api::keys::get_keys::v3::Request>(b, false)
+}
+pub fn c_set_presence(b: &[u8]) -> R {
+    request::<ruma_client_api::presence::set_presence::v3::Request>(b, false)
+}
+pub fn c_upload_signatures(b: &[u8]) -> R {
+    request::<ruma_client_api::keys::upload_signatures::v3::Request>(b, false)
+}
+pub fn c_get_relations(b: &[u8]) -> R {
+    request::<ruma_client_api::relations::get_relating_events_with_rel_type_and_event_type::v1::Request>(b, false)
+}
+pub fn c_knock_room(b: &[u8]) -> R {
+    request::<ruma_client_api::knock::knock_room::v3::Request>(b, false)
+}
+pub fn c_report_content(b: &[u8]) -> R {
+    request::<ruma_client_api::room::report_content::v3::Request>(b, false)
+}
+pub fn f_create_invite(b: &[u8]) -> R {
+    request::<ruma_federation_api::membership::create_invite::v2::Request>(b, false)
+}
+pub fn f_get_event(b: &[u8]) -> R {
+    request::<ruma_federation_api::event::get_event::v1::Request>(b, false)
+}
+pub fn f_backfill(b: &[u8]) -> R {
+    request::<ruma_federation_api::backfill::get_backfill::v1::Request>(b, false)
+}
+pub fn f_claim_keys(b: &[u8]) -> R {
+    request::<ruma_federation_api::keys::claim_keys::v1::Request>(b, false)
+}
+pub fn f_get_devices(b: &[u8]) -> R {
+    request::<ruma_federation_api::device::get_devices::v1::Request>(b, false)
+}
+pub fn f_send_knock(b: &[u8]) -> R {
+    request::<ruma_federation_api::knock::send_knock::v1::Request>(b, false)
+}
+pub fn f_create_leave(b: &[u8]) -> R {
+    request::<ruma_federation_api::membership::create_leave_event::v2::Request>(b, false)
+}
+pub fn f_query_profile(b: &[u8]) -> R {
+    request::<ruma_federation_api::query::get_profile_information::v1::Request>(b, false)
+}
+pub fn f_exchange_invite(b: &[u8]) -> R {
+    request::<ruma_federation_api::thirdparty::exchange_invite::v1::Request>(b, false)
+}
+pub fn f_make_join(b: &[u8]) -> R {
+    request::<ruma_federation_api::membership::prepare_join_event::v1::Request>(b, false)
+}
+pub fn a_query_user_id(b: &[u8]) -> R {
+    request::<ruma_appservice_api::query::query_user_id::v1::Request>(b, false)
+}
+pub fn a_ping(b: &[u8]) -> R {
+    request::<ruma_appservice_api::ping::send_ping::v1::Request>(b, false)
+}
+pub fn i_bind_3pid(b: &[u8]) -> R {
+    request::<ruma_identity_service_api::association::bind_3pid::v2::Request>(b, false)
+}
+pub fn i_validate_email(b: &[u8]) -> R {
+    request::<ruma_identity_service_api::association::email::validate_email::v2::Request>(b, false)
+}
+pub fn i_request_email_token(b: &[u8]) -> R {
+    request::<ruma_identity_service_api::association::email::create_email_validation_session::v2::Request>(b, false)
+}
+
+// --- responses a remote server sent; the first three are about the error side ---
+pub fn r_c_error(b: &[u8]) -> R {
+    response_or_error::<ruma_client_api::message::send_message_event::v3::Response>(b)
+}
+pub fn r_uiaa(b: &[u8]) -> R {
+    response_or_error::<ruma_client_api::account::register::v3::Response>(b)
+}
+pub fn r_f_error(b: &[u8]) -> R {
+    response_or_error::<ruma_federation_api::event::get_event::v1::Response>(b)
+}
+pub fn r_get_supported_versions(b: &[u8]) -> R {
+    // what every client does with this response: work out which versions it knows
+    let resp = build_response(b)?;
+    let r = <ruma_client_api::discovery::get_supported_versions::Response as IncomingResponse>::try_from_http_response(resp).map_err(|e| format!("from-http-{}", variant(&e)))?;
+    let known = r.known_versions();
+    let parsed: Vec<String> = r.versions.iter().map(|v| format!("{:?}", ruma_common::api::MatrixVersion::try_from(v.as_str()).ok())).collect();
+    Ok(sum(&format!("{r:?} {known:?} {parsed:?}")))
+}
+pub fn r_discover_homeserver(b: &[u8]) -> R {
+    response::<ruma_client_api::discovery::discover_homeserver::Response>(b)
+}
+pub fn r_discover_server(b: &[u8]) -> R {
+    response::<ruma_federation_api::discovery::discover_homeserver::Response>(b)
+}
+pub fn r_login_types(b: &[u8]) -> R {
+    response::<ruma_client_api::session::get_login_types::v3::Response>(b)
+}
+pub fn r_login(b: &[u8]) -> R {
+    response::<ruma_client_api::session::login::v3::Response>(b)
+}
+pub fn r_make_join(b: &[u8]) -> R {
+    response::<ruma_federation_api::membership::prepare_join_event::v1::Response>(b)
+}
+pub fn r_state_ids(b: &[u8]) -> R {
+    response::<ruma_federation_api::event::get_room_state_ids::v1::Response>(b)
+}
+pub fn r_backfill(b: &[u8]) -> R {
+    response::<ruma_federation_api::backfill::get_backfill::v1::Response>(b)
+}
+pub fn r_keys_query(b: &[u8]) -> R {
+    response::<ruma_client_api::keys::get_keys::v3::Response>(b)
+}
+pub fn r_get_devices(b: &[u8]) -> R {
+    response::<ruma_federation_api::device::get_devices::v1::Response>(b)
+}
+pub fn r_messages(b: &[u8]) -> R {
+    response::<ruma_client_api::message::get_message_events::v3::Response>(b)
+}
+pub fn r_context(b: &[u8]) -> R {
+    response::<ruma_client_api::context::get_context::v3::Response>(b)
+}
+pub fn r_joined_members(b: &[u8]) -> R {
+    response::<ruma_client_api::membership::joined_members::v3::Response>(b)
+}
+pub fn r_public_rooms(b: &[u8]) -> R {
+    response::<ruma_client_api::directory::get_public_rooms::v3::Response>(b)
+}
+pub fn r_turn_server(b: &[u8]) -> R {
+    response::<ruma_client_api::voip::get_turn_server_info::v3::Response>(b)
+}
+pub fn r_profile(b: &[u8]) -> R {
+    response::<ruma_client_api::profile::get_profile::v3::Response>(b)
+}
+pub fn r_hierarchy(b: &[u8]) -> R {
+    response::<ruma_client_api::space::get_hierarchy::v1::Response>(b)
 }
